@@ -324,6 +324,36 @@ fn check_tied_slices(ctx: &Ctx, st: &mut Stats) {
     one::<RevOptDensMinHash<f32, u64, fnv::FnvHasher>>(ctx, "rev32", st);
 }
 
+/// the log level is part of the environment: `log` macros evaluate their arguments only when their level is enabled, so a
+/// sketch must be the same with a trace-level logger installed as without one (every kind, the solo script; the large
+/// HashMap sets)
+fn check_logging(ctx: &Ctx, kinds: &[Kind], st: &mut Stats) {
+    let ops = script(0);
+    for kind in kinds {
+        let reference = solo(kind, &ops);
+        let traced = crate::common::with_trace_logging(|| solo(kind, &ops));
+        st.calls += 2 * (ops.len() as u64 + 1);
+        if traced != reference {
+            ctx.violation(
+                &format!("logging:{}", base_name(kind)),
+                &format!("{}: the same script gives a different result (or fails) when a trace-level logger is installed: {:?} vs {:?}", kind.name, traced.as_ref().map(|v| &v[..v.len().min(4)]), reference.as_ref().map(|v| &v[..v.len().min(4)])),
+                json!({"kind": "logging", "sketcher": kind.name}),
+            );
+        }
+    }
+    for which in 0..4usize {
+        let a = large_hashmap_digest(which, 0);
+        let b = crate::common::with_trace_logging(|| large_hashmap_digest(which, 0));
+        if a != b {
+            ctx.violation(
+                &format!("logging:{}", LARGE_NAMES[which]),
+                &format!("{}: a 2000-item weighted set gives a different signature when a trace-level logger is installed", LARGE_NAMES[which]),
+                json!({"kind": "logging", "sketcher": LARGE_NAMES[which]}),
+            );
+        }
+    }
+}
+
 pub fn child(_args: &[String]) -> i32 {
     let kinds = catalogue(&[2, 16], false);
     let ops = script(0);
@@ -383,6 +413,7 @@ pub fn run(ctx: &Ctx) -> i32 {
     check_large_hashmaps(ctx, &mut st);
     check_threads(ctx, &kinds, &mut st);
     check_tied_slices(ctx, &mut st);
+    check_logging(ctx, &kinds, &mut st);
     check_processes(ctx, &mut st);
     println!(
         "C12 sketcher kinds={} interleavings={} calls={} thread rounds={} process digests={} distinct results={}",
@@ -421,6 +452,9 @@ pub fn run(ctx: &Ctx) -> i32 {
 }
 
 pub fn replay(_ctx: &Ctx, case: &Value) -> Result<(bool, String), String> {
+    if case["kind"].as_str() == Some("logging") {
+        return Err("re-derived by running the check itself".into());
+    }
     if case["kind"].as_str() == Some("tied-slice") {
         return Err("re-derived by running the check itself (schedule sampling)".into());
     }
